@@ -303,7 +303,7 @@ class Body:
             if ty['k'] == 'tuple' and not ty['elems']:
                 return ('unit',)
             if ty['k'] == 'closure':
-                return ('agg', 'closure:' + ty['path'], ())
+                return ('agg', 'closure|' + ty['path'], ())
             return ('zst', ty['s'])
         if k == 'tyconst':
             if ty['k'] == 'int' and c.get('v') is not None:
@@ -460,9 +460,9 @@ class Body:
             ops = tuple(self.operand(o, at) for o in rv['ops'])
             agg = rv['agg']
             if agg == 'adt':
-                return ('agg', 'adt:%s:%s' % (rv['path'], rv['variant_name']), ops)
+                return ('agg', 'adt|%s|%s' % (rv['path'], rv['variant_name']), ops)
             if agg == 'closure':
-                return ('agg', 'closure:' + rv['path'], ops)
+                return ('agg', 'closure|' + rv['path'], ops)
             return ('agg', agg, ops)
         if k == 'repeat':
             return ('repeat', self.operand(rv['op'], at), rv.get('n'))
@@ -550,7 +550,7 @@ def contains_rec(t):
 
 
 def field(t, i):
-    if t[0] == 'agg' and i < len(t[2]) and not t[1].startswith('closure:'):
+    if t[0] == 'agg' and i < len(t[2]) and not t[1].startswith('closure|'):
         return t[2][i]
     if t[0] == 'binov':
         return ('bin', t[1] + '_checked', t[2], t[3]) if i == 0 else ('ovf', t[1], t[2], t[3])
@@ -600,7 +600,7 @@ def show(t, depth=0):
         nm = t[1].split('::')[-2:] if t[1] else ['?']
         return '%s(%s)%s' % ('::'.join(nm), ', '.join(show(a, d) for a in t[2]), '' if t[4] is None else '@bb%s' % (t[4][1],))
     if k == 'agg':
-        nm = t[1].split(':')[-1] if t[1].startswith('adt:') else t[1].split('::')[-1]
+        nm = t[1].split('|')[-1] if t[1].startswith('adt|') else t[1].split('::')[-1]
         return '%s{%s}' % (nm, ', '.join(show(a, d) for a in t[2]))
     if k == 'phi': return 'phi_%d(%s)' % (t[1], ' | '.join('%s' % show(a[1], d) for a in t[2]))
     if k == 'update': return 'update(%s, %s := %s)' % (show(t[1], d), t[2], show(t[3], d))
